@@ -313,6 +313,23 @@ def cases(tier, seed):
             if t.isidentifier():
                 cross.append(t)
         cross += [u + "s" for u in rnd.sample(spell, 300) if (u + "s").isidentifier()]
+    # every defined spelling that also has a prefix / plural reading by the rule: exact names win
+    exact_amb = []
+    for sp in spell:
+        other = False
+        for suffix in ("", "s"):
+            if suffix and not sp.endswith("s"):
+                continue
+            stem = sp[:-1] if suffix else sp
+            if suffix and len(stem) > 1 and stem in d.spellings:
+                other = True
+            for p_ in d.prefixes:
+                if stem.startswith(p_) and stem[len(p_) :] in d.spellings and not (suffix and len(stem[len(p_) :]) == 1):
+                    other = True
+        if other and sp.isidentifier():
+            exact_amb.append(sp)
+    for i in range(0, len(exact_amb), 100):
+        out.append(Case("H08.d", f"exact-with-another-reading:{i:04d}", M, "h_default_cross", {"items": exact_amb[i : i + 100]}, validate=0, weight=4.0))
     for i in range(0, len(cross), 200):
         out.append(Case("H08.d", f"{i:06d}", M, "h_default_cross", {"items": cross[i : i + 200]}, validate=0, weight=4.0))
     # CrossHair: the string itself symbolic (all unicode strings up to the bound)
